@@ -52,6 +52,26 @@ Theorem C10_deviating_frame_rejected : forall seal open wf fin d sent_d sent_o f
     is_failed (fst (recv_bytes open wf fin true d (r_init d) wire)) = true.
 Proof. exact final_deviating. Qed.
 
+(* Frames of a different session - another boss-doer link of the same run (source and destination both remote),
+   sealed by its honest senders under its own key [seal'] - are rejected as well, whichever direction d' and
+   position j' of the other link they come from (in particular the same direction and position, j' = j, d' = d):
+   a corollary of the theorem above, because H2 speaks about this link's key only ([dir_log seal ...]: nothing but
+   this link's two senders ever sealed under it - "every doer launch gets a newly generated key", C15; the tie
+   checks that premise on the real binaries with the cross-link man in the middle and the key comparison).
+   The last premise excludes the one harmless case: the foreign frame being byte for byte this link's own j-th frame. *)
+Theorem C10_foreign_session_frame_rejected : forall seal seal' open wf fin d sent_d sent_o frames_d frames_o d' sent' frames',
+  honest_run seal d sent_d frames_d -> honest_run seal (other d) sent_o frames_o ->
+  ideal_aead open (dir_log seal d sent_d sent_o) ->
+  Forall (fun m => wf m = true) sent_d ->
+  honest_run seal' d' sent' frames' ->
+  forall j j' f' rest,
+    (j <= length sent_d)%nat -> existsb fin (firstn j sent_d) = false ->
+    nth_error frames' j' = Some f' -> nth_error frames_d j <> Some f' ->
+    let wire := concat (firstn j frames_d) ++ f' ++ rest in
+    snd (recv_bytes open wf fin true d (r_init d) wire) = firstn j sent_d /\
+    is_failed (fst (recv_bytes open wf fin true d (r_init d) wire)) = true.
+Proof. exact final_foreign_session. Qed.
+
 (* A length field beyond the 8 MiB buffer: the receiving thread panics on the slice index - a failed
    connection (noted for C18). *)
 Theorem C10_oversize_length_panics : forall seal open wf fin d sent_d sent_o frames_d frames_o,
@@ -156,5 +176,6 @@ Proof. exact repaired_rejects_duplicate. Qed.
 
 Print Assumptions C10_prefix.
 Print Assumptions C10_deviating_frame_rejected.
+Print Assumptions C10_foreign_session_frame_rejected.
 Print Assumptions C10_no_nonce_reuse.
 Print Assumptions C14_stream.
